@@ -95,6 +95,12 @@ type exclCase struct {
 	In      string      `json:"in"`
 	Out     string      `json:"out"`
 	OutOK   bool        `json:"out_ok"`
+	// long files only: the size of the file, and the addresses of the target net that the REAL chain of the tcp/udp
+	// commands (address generator x port generator -> exclusion filter) lets through (hex, 4 bytes each)
+	Bytes      int    `json:"bytes,omitempty"`
+	Chain      string `json:"chain,omitempty"`
+	ChainOK    bool   `json:"chain_ok,omitempty"`
+	ChainOther int    `json:"chain_other,omitempty"` // requests with an error or without a 4-byte address
 }
 
 func cidrOracle(s string) netJ {
@@ -380,6 +386,206 @@ func mkExcl(r *hlib.SplitMix64, class string) exclCase {
 	} else {
 		ls = tgt.RandExclude(r, a, k, n, class == "bad-line")
 	}
+	finishExcl(r, &c, ls, a, k)
+	return c
+}
+
+// chainThrough runs the real generator chain of the tcp/udp commands (ipGenerator x portGenerator -> exclusion
+// filter, built by ipPortScanCmdOpts.newIPPortGenerator) over a/k with one port and returns the addresses let through.
+func chainThrough(c *exclCase, ranger scan.IPContainer, a uint32, k int, seed int64) {
+	rand.Seed(seed)
+	ctx, cancel := context.WithCancel(context.Background())
+	defer cancel()
+	rg := command.VerifPacketIPPortGenerator(&command.VerifTargetOpts{ExcludeIPs: ranger})
+	ch, err := rg.GenerateRequests(ctx, &scan.Range{DstSubnet: &net.IPNet{IP: net.IP(tgt.U32(a)), Mask: net.CIDRMask(k, 32)},
+		Ports: []*scan.PortRange{{StartPort: 443, EndPort: 443}}})
+	if err != nil {
+		return
+	}
+	out, complete, _ := tgt.Drain(ch, 0)
+	c.ChainOK = complete
+	var buf []byte
+	for _, q := range out {
+		if q.Err != 0 || len(q.IP) != 4 {
+			c.ChainOther++
+			continue
+		}
+		buf = append(buf, q.IP...)
+	}
+	c.Chain = hex.EncodeToString(buf)
+}
+
+// ---------------------------------------------------------------- long exclusion files
+
+func padTo(r *hlib.SplitMix64, core string, w int) string {
+	// core, possibly indented, filled up to exactly w characters with spaces or a trailing comment
+	lead := 0
+	if room := w - len(core); room > 0 && r.Intn(3) == 0 {
+		if room > 3 {
+			room = 3
+		}
+		lead = r.Intn(room + 1)
+	}
+	t := strings.Repeat(" ", lead) + core
+	room := w - len(t)
+	if room >= 3 && r.Intn(3) == 0 {
+		sp := r.Intn(room - 1)
+		t += strings.Repeat(" ", sp) + "#" + strings.Repeat("-", room-sp-1)
+	} else if room > 0 {
+		t += strings.Repeat(" ", room)
+	}
+	return t
+}
+
+// longEntry: mostly hosts and small blocks inside the target base..base+host, some unrelated / neighbouring ones,
+// so that a good part of the target, but never all of it, is covered.
+func longEntry(r *hlib.SplitMix64, base, host uint32) (uint32, int) {
+	switch r.Intn(9) {
+	case 0, 1, 2, 3, 4:
+		return base | (uint32(r.Uint64()) & host), 32
+	case 5, 6:
+		p := 27 + r.Intn(5)
+		return (base | (uint32(r.Uint64()) & host)) &^ ((uint32(1) << uint(32-p)) - 1), p
+	case 7:
+		return uint32(r.Uint64()), 8 + r.Intn(25)
+	default:
+		if r.Bool() {
+			return base + host + 1 + uint32(r.Intn(3)), 32
+		}
+		return base - 1 - uint32(r.Intn(3)), 32
+	}
+}
+
+func entryText(r *hlib.SplitMix64, b uint32, p int) string {
+	if p == 32 && r.Intn(4) != 0 {
+		return tgt.Dotted(b)
+	}
+	return fmt.Sprintf("%s/%d", tgt.Dotted(b), p)
+}
+
+// modal keeps the candidates whose text has the most frequent length.
+func modal(cands []tgt.ExclLine) []tgt.ExclLine {
+	cnt := map[int]int{}
+	best := 0
+	for _, c := range cands {
+		cnt[len(c.Text)]++
+	}
+	for l, n := range cnt {
+		if n > cnt[best] || (n == cnt[best] && l > best) {
+			best = l
+		}
+	}
+	var out []tgt.ExclLine
+	for _, c := range cands {
+		if len(c.Text) == best {
+			out = append(out, c)
+		}
+	}
+	return out
+}
+
+// mkExclLong: exclusion FILES of hundreds to thousands of entries (longer than 4096 bytes, the "huge" ones longer than
+// 65536 bytes): lists of hosts of one text width, lists of blocks of one text width, tables padded to one column width
+// (entries, comment lines, blank lines), and free-form files of mixed line lengths with comments and blank lines.
+// Judged like every other exclusion case (membership of every address of the target and at the boundaries of EVERY
+// entry) plus: the real generator chain of the tcp/udp commands over the target lets through exactly the addresses that
+// no listed entry covers.
+func mkExclLong(r *hlib.SplitMix64, class string) exclCase {
+	c := exclCase{Kind: "excl", Class: class, Seed: r.Int63()}
+	k := 20 + r.Intn(2)
+	if class == "long:huge-padded" {
+		k = 19
+	}
+	a, _ := tgt.RandNet4(r, k, k, true)
+	host := (uint32(1) << uint(32-k)) - 1
+	c.NetBase, c.NetK = a, k
+	c.NetIP, c.NetMask = tgt.Hex(tgt.U32(a)), hex.EncodeToString(net.CIDRMask(k, 32))
+	minBytes := 4097 + r.Intn(9000)
+	if r.Intn(3) == 0 {
+		minBytes = 4097 + r.Intn(200) // just beyond one buffer
+	}
+	var ls []tgt.ExclLine
+	size := 0
+	add := func(l tgt.ExclLine) {
+		ls = append(ls, l)
+		size += len(l.Text) + 1
+	}
+	switch class {
+	case "long:equal-hosts", "long:equal-nets":
+		var cands []tgt.ExclLine
+		if class == "long:equal-hosts" {
+			for i := uint32(0); i <= host; i++ {
+				cands = append(cands, tgt.ExclLine{Text: tgt.Dotted(a + i), Meaning: "net", Base: a + i, Prefix: 32})
+			}
+		} else {
+			for p := 27; p <= 31; p++ {
+				for i := uint32(0); i <= host; i += uint32(1) << uint(32-p) {
+					cands = append(cands, tgt.ExclLine{Text: fmt.Sprintf("%s/%d", tgt.Dotted(a+i), p), Meaning: "net", Base: a + i, Prefix: p})
+				}
+			}
+		}
+		cands = modal(cands)
+		for i := len(cands) - 1; i > 0; i-- {
+			j := r.Intn(i + 1)
+			cands[i], cands[j] = cands[j], cands[i]
+		}
+		l1 := len(cands[0].Text) + 1
+		// a heading comment: none, one whose length is a whole number of entry lines, or any
+		switch r.Intn(4) {
+		case 0:
+			add(tgt.ExclLine{Text: "# " + strings.Repeat("-", l1*(1+r.Intn(3))-3), Meaning: "skip"})
+		case 1:
+			add(tgt.ExclLine{Text: "# excluded " + tgt.Dotted(uint32(r.Uint64())), Meaning: "skip"})
+		}
+		// at most a third of the candidates, so that most of the target stays to be scanned
+		for i := 0; i < len(cands) && (size < minBytes || i < len(cands)/3 && r.Intn(200) != 0); i++ {
+			add(cands[i])
+		}
+	case "long:padded", "long:huge-padded":
+		w := 20 + r.Intn(25)
+		if class == "long:huge-padded" {
+			minBytes = 65537 + r.Intn(8000)
+			w = 30 + r.Intn(20)
+		}
+		for size < minBytes || r.Intn(100) != 0 {
+			switch r.Intn(14) {
+			case 0:
+				add(tgt.ExclLine{Text: strings.Repeat(" ", w), Meaning: "skip"})
+			case 1:
+				add(tgt.ExclLine{Text: padTo(r, "# "+tgt.Dotted(uint32(r.Uint64())), w), Meaning: "skip"})
+			default:
+				b, p := longEntry(r, a, host)
+				add(tgt.ExclLine{Text: padTo(r, entryText(r, b, p), w), Meaning: "net", Base: b, Prefix: p})
+			}
+		}
+	default: // long:mixed
+		for size < minBytes || r.Intn(100) != 0 {
+			switch r.Intn(12) {
+			case 0:
+				add(tgt.ExclLine{Text: "", Meaning: "skip"})
+			case 1:
+				add(tgt.ExclLine{Text: strings.Repeat(" ", r.Intn(4)) + "# " + tgt.Dotted(uint32(r.Uint64())), Meaning: "skip"})
+			case 2:
+				add(tgt.ExclLine{Text: strings.Repeat(" ", 1+r.Intn(5)), Meaning: "skip"})
+			default:
+				b, p := longEntry(r, a, host)
+				t := strings.Repeat(" ", r.Intn(3)) + entryText(r, b, p) + strings.Repeat(" ", r.Intn(3))
+				if r.Intn(5) == 0 {
+					t += "# note"
+				}
+				add(tgt.ExclLine{Text: t, Meaning: "net", Base: b, Prefix: p})
+			}
+		}
+	}
+	c.Bytes = size
+	finishExcl(r, &c, ls, a, k)
+	return c
+}
+
+// finishExcl: the file through the real parseExcludeFile + cidranger (+ filter stage, + the real chain for long files)
+func finishExcl(r *hlib.SplitMix64, cp *exclCase, ls []tgt.ExclLine, a uint32, k int) {
+	c := *cp
+	defer func() { *cp = c }()
 	text := tgt.JoinLines(ls)
 	for _, l := range ls {
 		// the code's own cleaning expressions
@@ -396,9 +602,12 @@ func mkExcl(r *hlib.SplitMix64, class string) exclCase {
 	})
 	if err != nil {
 		c.ImplErr = err.Error()
-		return c
+		return
 	}
 	c.ImplOK = true
+	if c.Bytes > 0 {
+		chainThrough(&c, ranger, a, k, c.Seed)
+	}
 	size := 1 << uint(32-k)
 	member := make([]byte, size)
 	var reqs []*scan.Request
@@ -463,7 +672,6 @@ func mkExcl(r *hlib.SplitMix64, class string) exclCase {
 		c.OutOK = complete
 		c.Out = hex.EncodeToString(tgt.Encode(out))
 	}
-	return c
 }
 
 func main() {
@@ -473,6 +681,7 @@ func main() {
 	nips := flag.Int("nips", 120, "number of generator cases")
 	nexcl := flag.Int("nexcl", 60, "number of exclusion cases")
 	full := flag.Int("full", 1024, "largest net walked completely")
+	nlong := flag.Int("nlong", 8, "number of long exclusion files (> 4096 bytes, some > 65536 bytes)")
 	child := flag.String("child", "", "internal: run the generator on iphex/maskhex and print the observation")
 	limit := flag.Int("limit", 8, "internal")
 	one := flag.String("replay", "", "replay: parse:<hex string> | ips:<iphex>/<maskhex>:<seed>:<limit>")
@@ -513,6 +722,9 @@ func main() {
 			// excl:<hex of the file text>:<base>:<prefix>: the real parser + trie, membership over the net
 			f := strings.Split(rest, ":")
 			text, _ := hex.DecodeString(f[0])
+			if strings.HasPrefix(f[0], "@") { // the text is in a file (long exclusion files)
+				text, _ = os.ReadFile(f[0][1:])
+			}
 			var base uint32
 			var k int
 			fmt.Sscan(f[1], &base)
@@ -536,6 +748,10 @@ func main() {
 					}
 				}
 				c.Member = hex.EncodeToString(member)
+				if len(text) > 4096 {
+					c.Bytes = len(text)
+					chainThrough(&c, ranger, base, k, *seed)
+				}
 			}
 			w.Put(c)
 		case "ips":
@@ -584,5 +800,12 @@ func main() {
 			class = "nested"
 		}
 		w.Put(mkExcl(r, class))
+	}
+	// long exclusion files, from a generator of their own (the cases above do not depend on their number)
+	rl := hlib.NewRand(*seed ^ 0x6c6f6e67)
+	lclasses := []string{"long:equal-hosts", "long:padded", "long:equal-nets", "long:huge-padded", "long:mixed", "long:equal-hosts",
+		"long:padded", "long:mixed"}
+	for i := 0; i < *nlong; i++ {
+		w.Put(mkExclLong(rl, lclasses[i%len(lclasses)]))
 	}
 }
